@@ -254,6 +254,15 @@ theorem C07_real_partial (hmin : 0 < p.minLen) (u : Model.Proto.Tid) (s0 s1 : Mo
     ∀ e ∈ π, ∃ σ ∈ sts, absGet σ.g e.1 = some e.2 :=
   Proofs.ProtoRange.trav_real_partial p hmin u s0 s1 sts π h0 hpc htr hncs hret hdep hres
 
+/-- **never a phantom** (every schedule, `Clear` included): every pair in the list a `Range` call returns was stored under
+that very key by the commit step of a writer (`Store`, `LoadOrStore`, `LoadAndStore`, `LoadOrCompute`, `Compute`)
+earlier in the run (`commits`: the pairs stored by the commit steps of the schedule) -/
+theorem C07_no_phantom (hmin : 0 < p.minLen) (sched : List (Model.Proto.Tid × Choice K V)) (s : Model.Proto.St K V)
+    (hrun : Model.Proto.run p (Model.Proto.init p) sched = some s) (u : Model.Proto.Tid) (π : List (K × V))
+    (hres : (s.l u).result = some (.visits π)) :
+    ∀ e ∈ π, e ∈ Proofs.ProtoRange.commits p (Model.Proto.init p) sched :=
+  Proofs.ProtoRange.range_no_phantom p hmin sched s hrun u π hres
+
 end conc
 
 theorem trav_reach {K V : Type} [DecidableEq K] {p : Model.Proto.Params K} {u : Model.Proto.Tid} {d : Nat}
@@ -319,6 +328,9 @@ example : ∃ (s0 s1 : St Nat Nat) (sts : List (St Nat Nat)) (π : List (Nat × 
     intro σ hσ w hw
     rw [h σ hσ] at hw; cases hw
   · decide
+
+/-- the two pairs of that run were stored by its two commit steps -/
+example : commits exP (init exP) (exPre ++ exMid) = [(1, 5), (3, 7)] := by decide
 
 end example_window
 
